@@ -24,12 +24,10 @@ ASSUMPTIONS = [
     'these diagonal patterns is c*T',
 ]
 OPEN_STATEMENTS = [
-    'jw_exact / jw_majorana_exact / jw_one_body_sound / jw_two_body_sound / jw_interaction_op_sound are proved under the decidable hypothesis "exact regime" '
+    'jw_exact / jw_majorana_exact / jw_one_body_sound / jw_two_body_sound / jw_interaction_op_sound / jw_dch_sound are proved under the decidable hypothesis "exact regime" '
     '(no non-zero value deleted by the |v| < EQ_TOLERANCE test of +=); without it the statements are false by '
     'design of the library; the hypothesis is evaluated by the Model on every generated input and counted in the '
     'distribution (theorem-hypothesis exact-regime)',
-    'jw_dch_sound (the DiagonalCoulombHamiltonian path denotes its docstring formula): NOT proved; correspondence + Spec '
-    'oracle against the formula + exact comparison with the FermionOperator path (jw_interaction_op_sound IS proved)',
     'reverse_jw_left_inverse (normal_ordered(reverse_jw(jw A)) = normal_ordered A): NOT proved; correspondence of the '
     'reverse transform + Spec oracle (the returned FermionOperator acts like the QubitOperator) + exact round trips',
     'linearity / multiplicativity / dagger-compatibility of jordan_wigner are consequences of jw_exact in the Spec '
@@ -475,7 +473,8 @@ def stream_tensors(ctx):
         # Spec: T and V as given to the constructor (sum over all ordered pairs, n_p n_p = n_p)
         b.add('jordan_wigner(DiagonalCoulombHamiltonian)', case, jQ,
               {'op': 'c04.dch', 'n': n, 'constant': jc, 'one': j1, 'two': j2},
-              oracle('fermion', n, ['dch', n, to_gq(const), flat(one), flat(two)], jQ))
+              oracle('fermion', n, ['dch', n, to_gq(const), flat(one), flat(two)], jQ),
+              regime_req={'op': 'c04.dch_ok', 'n': n, 'constant': jc, 'one': j1, 'two': j2})
         ok, QF = call(st, 'jordan_wigner(get_fermion_operator(dch))', case,
                       lambda: jw(of.transforms.get_fermion_operator(dch)))
         if ok and canon_nz(jQ) != canon_nz(enc_op('qubit', QF.terms)):
